@@ -217,6 +217,15 @@ var c16Unsupported = []string{"create-key-mismatch", "update-key-mismatch", "del
 	"update-prevkv", "update-ignore-value", "cmp-greater", "cmp-version", "two-compares", "put-no-compare", "two-puts", "update-failure-other-key", "create-mod-nonzero-no-failure"}
 
 func genC16(r *rt.Rand, tier string, idx int) *world.Scenario {
+	if idx%6 == 5 {
+		// concurrent histories: the key-value of a failure branch must be the *current* one. The etcd
+		// shim passes the backend's failure-branch key-value through unchanged (the sequential class
+		// checks that), so this class drives concurrent writers through the backend API.
+		sc := genWrites(r, tier, idx, writeOpts{})
+		sc.Class = "concurrent-writers-failure-branch"
+		sc.Extra = map[string]int64{"c16_concurrent": 1}
+		return sc
+	}
 	sc := &world.Scenario{Prefix: prefix, Seed: r.Uint64(), Engine: "memkv", EtcdCompat: true, Class: "etcd-api-history"}
 	sc.Extra = map[string]int64{"lockstep": 1}
 	keys := []string{prefix + "/a", prefix + "/a/b", prefix + "/b", prefix + "/pods/ns/p1", prefix + "/pods/ns/p2"}
@@ -287,8 +296,43 @@ type c16Event struct {
 	seq      int
 }
 
+// checkC16Concurrent: what a failed guarded update/delete returns as "current key-value".
+func checkC16Concurrent(c *Ctx) {
+	const P = "C16"
+	tl := buildTimeline(c.W.KV.GT)
+	n := 0
+	for _, r := range c.W.Recs {
+		if !r.Done || r.Err != "" || r.OK || r.Client < 0 || (r.Op.K != "update" && r.Op.K != "delete") {
+			continue
+		}
+		n++
+		if r.RevAbs != 0 && r.KV != nil && r.KV.Rev == r.RevAbs {
+			c.Out.violate(P, "failure-branch-matches-expectation", "failure-branch-matches-expectation op="+r.Op.K,
+				"%s %s expecting revision %d reported a failed condition, but the key-value in its failure branch has exactly that revision", r.Op.K, r.Op.Key, r.RevAbs)
+		}
+		ok := false
+		sts := tl.StatesDuring(r.Op.Key, r.Inv, r.Ret)
+		for _, st := range sts {
+			if (r.KV == nil && !st.Exists) || (r.KV != nil && st.Exists && st.Rev == r.KV.Rev && st.Val == r.KV.Val) {
+				ok = true
+			}
+		}
+		if !ok {
+			c.Out.violate(P, "failure-branch-not-current", "failure-branch-not-current op="+r.Op.K, "%s %s: failure branch returned %+v, the key's states during the request were %+v", r.Op.K, r.Op.Key, r.KV, sts)
+		}
+	}
+	if n > 0 {
+		c.Out.NonTrivial = true
+		c.Out.probe("concurrent-failure-branch-checked")
+	}
+}
+
 func c16Custom(t *testing.T, sc *world.Scenario, out *Outcome) {
 	const P = "C16"
+	if sc.Extra["c16_concurrent"] != 0 {
+		runStandard(t, &Prop{ID: P, Check: checkC16Concurrent}, sc, out)
+		return
+	}
 	w, err := world.New(sc)
 	if err != nil {
 		out.Infra = err.Error()
